@@ -46,6 +46,8 @@ type Rec struct {
 	// the result of the PREVIOUS conversion made in this process, looked at again after this one: still what it was?
 	// (true when there was none)
 	PrevIntact bool `json:"previntact"`
+	// the same source value converted a second time: the same result as the first time?
+	Again bool `json:"again"`
 }
 
 // the previous conversion's result (the value the library returned, retained) and what it looked like then
@@ -133,18 +135,35 @@ func run(rec *Rec, adds []add, closeDelta uint32, div TF) {
 		rec.Src = track(s.Tracks[0])
 	}
 	type res struct {
-		d   smf.SMF
-		pan string
+		d     smf.SMF
+		pan   string
+		again bool
 	}
 	ch := make(chan res, 1)
 	go func() {
-		var d smf.SMF
+		var d, d2 smf.SMF
 		pan := hx.Catch(func() { d = s.ConvertToSMF1() })
-		ch <- res{d, pan}
+		again := true
+		if pan == "" { // converting must not use up or change its source: the same value converted once more
+			pan = hx.Catch(func() { d2 = s.ConvertToSMF1() })
+			if pan != "" {
+				pan = "second conversion of the same value: " + pan
+			}
+			var t1, t2 [][]Ev
+			for _, t := range d.Tracks {
+				t1 = append(t1, track(t))
+			}
+			for _, t := range d2.Tracks {
+				t2 = append(t2, track(t))
+			}
+			again = reflect.DeepEqual(t1, t2) && d.Format() == d2.Format()
+		}
+		ch <- res{d, pan, again}
 	}()
 	select {
 	case x := <-ch:
 		rec.Pan = x.pan
+		rec.Again = x.again
 		rec.Ddiv = tfOf(nil)
 		rec.PrevIntact = true
 		if prevDest != nil { // an earlier result must not change because another file was converted
@@ -164,7 +183,7 @@ func run(rec *Rec, adds []add, closeDelta uint32, div TF) {
 			prevDest, prevTracks = &d, rec.Dtracks
 		}
 	case <-time.After(10 * time.Second):
-		rec.Pan, rec.Ddiv, rec.PrevIntact = "timeout: ConvertToSMF1 did not return within 10 s", tfOf(nil), true
+		rec.Pan, rec.Ddiv, rec.PrevIntact, rec.Again = "timeout: ConvertToSMF1 did not return within 10 s", tfOf(nil), true, true
 	}
 }
 
